@@ -25,6 +25,10 @@ type ProgSpec struct {
 	// rejects at Compile is skipped; an accepted one takes part in the history
 	// (oracles that need no reference model: fresh-VM comparison, snapshots).
 	Raw      string `json:"raw,omitempty"`
+	// NoEnv (C08): compiled without expr.Env - no static types, generic
+	// fetch/call instructions; falls back to the typed compilation when the
+	// untyped one is rejected.
+	NoEnv bool `json:"no_env,omitempty"`
 	Optimize bool   `json:"optimize"`
 	Source   string `json:"source_text,omitempty"`
 }
@@ -40,6 +44,10 @@ type VMOp struct {
 	// followed by program Probe on the same VM (crash-point enumeration).
 	Grid  bool `json:"grid,omitempty"`
 	Probe int  `json:"probe,omitempty"`
+	// Feed: the value the previous successful run on this VM returned is passed
+	// to this run as the environment's dynamic member Any (the live object for the
+	// reused VM; a deep copy taken when it was returned for the fresh-VM run).
+	Feed bool `json:"feed_previous_result,omitempty"`
 }
 
 type VMScenario struct {
@@ -83,6 +91,9 @@ func genVMScenario(seed uint64, idx int, tier string, snapshotBias bool) *VMScen
 	if r.Chance(1, 4) {
 		base.M = r.Range(100, 400)
 	}
+	if r.Chance(1, 8) {
+		base.M = r.Range(1100, 2600) // deep operand stacks: map(N..M, ...) keeps every element on the stack
+	}
 	base.A = r.Range(3, 40)
 	if base.Z == 0 {
 		base.Z = 1
@@ -121,6 +132,10 @@ func genVMScenario(seed uint64, idx int, tier string, snapshotBias bool) *VMScen
 		} else if snapshotBias && r.Chance(1, 3) {
 			ps.Kind = "const-heavy"
 			ps.Tree = genConstHeavy(g0)
+		}
+		if r.Chance(1, 6) {
+			ps.Kind = "feedback"
+			ps.Tree = genFeedback(g0)
 		}
 		if snapshotBias && r.Chance(1, 6) {
 			ps.Kind = "probe"
@@ -178,6 +193,9 @@ func genVMScenario(seed uint64, idx int, tier string, snapshotBias bool) *VMScen
 		op.Budget = budget
 		if r.Chance(1, 6) {
 			op.Crash = r.Intn(60)
+		}
+		if r.Chance(1, 4) {
+			op.Feed = true
 		}
 		if r.Chance(1, 6) {
 			op.Faults = []CallFault{{Idx: r.Intn(6), Kind: allFaultKinds[r.Intn(len(allFaultKinds))]}}
@@ -262,6 +280,80 @@ var probeSources = []string{
 	"S + T", "Xs[:1]", "Xs[1:]", "filter(Xs[:2], {# > 0})", "map(Xs[:1], {# + 1})",
 	"O.Xs[:1] + Xs", "Xs[:len(Xs) - 1] + [0]", "[Xs[:1], Ys]", "{\"k1\": Xs[:1]}",
 	"Xs[:1] + map(Ys, {#})", "map(Objs, {#.V})", "O.Xs[:1]", "Mp", "len(Xs[:1] + Ys)",
+	// members that exist only for some environment representations (pointer-receiver
+	// method, lower-case map keys): whether they compile must depend on the
+	// representation alone, not on what the process compiled earlier
+	"PtrM(1)", "PtrM(A) + 1", "index + 1", "not info",
+}
+
+// genFeedback builds programs that return nested VM-built collections and/or
+// read the dynamic member Any (which a Feed op sets to an earlier result).
+func genFeedback(r *RNG) *N {
+	pair := func() *N { return nArr(nPtr(), nBin("*", nPtr(), nInt(2))) }
+	switch r.Intn(7) {
+	case 0:
+		return nBi("map", nID("Xs"), pair())
+	case 1:
+		return nArr(nArr(nID("A"), nID("B")), nID("Any"))
+	case 2:
+		return nArr(nBi("map", nID("Ys"), pair()), nID("Any"), nArr(nID("C")))
+	case 3:
+		return nBi("map", nBin("..", nInt(1), nID("D")), nArr(nPtr(), nID("Any")))
+	case 4:
+		return nMap(nPair("k1", nArr(nID("A"), nArr(nID("B")))), nPair("k2", nID("Any")))
+	case 5:
+		return nID("Any")
+	default:
+		return nArr(nID("Any"), nBi("filter", nID("Xs"), nBin(">", nPtr(), nInt(0))), nArr(nArr(nID("K"))))
+	}
+}
+
+// deepCopy copies the collections the VM builds (and the ones the world hands out).
+func deepCopy(v interface{}) interface{} {
+	deepCopyBudget = 200000
+	return deepCopyN(v, 0)
+}
+
+// deepCopyBudget bounds the number of nodes one deepCopy may create (a value that
+// aliases itself can unfold exponentially). Only the sequential engines use it.
+var deepCopyBudget int
+
+// deepCopyN: a value that refers to itself (possible only when the library has
+// corrupted it) is cut at depth 64 instead of recursing forever.
+func deepCopyN(v interface{}, depth int) interface{} {
+	if depth > 64 {
+		return "<deeper than 64 levels: cyclic value?>"
+	}
+	deepCopyBudget--
+	if deepCopyBudget < 0 {
+		return "<copy cut: more than 200000 nodes>"
+	}
+	switch x := v.(type) {
+	case []interface{}:
+		out := make([]interface{}, len(x))
+		for i, e := range x {
+			out[i] = deepCopyN(e, depth+1)
+		}
+		return out
+	case []int:
+		return append([]int{}, x...)
+	case []string:
+		return append([]string{}, x...)
+	case map[string]interface{}:
+		out := make(map[string]interface{}, len(x))
+		for k, e := range x {
+			out[k] = deepCopyN(e, depth+1)
+		}
+		return out
+	}
+	return v
+}
+
+// withAny returns the environment value (in representation rep) with its
+// dynamic member Any replaced.
+func withAny(e *Env, rep string, any interface{}) interface{} {
+	e.Any = any
+	return e.AsRep(rep)
 }
 
 // genTouching builds programs biased toward the places a write to shared data
@@ -378,7 +470,7 @@ func (c07Engine) Assumptions() []string {
 	}
 }
 func (c07Engine) Required(tier string) []string {
-	return []string{"hook_calls", "ops_on_used_vm", "crash_fired", "grid_crash_points", "budget_exceeded_on_fresh", "call_fault_fired", "failed_in_closure", "cumulative_allocation_over_budget"}
+	return []string{"hook_calls", "ops_on_used_vm", "crash_fired", "grid_crash_points", "budget_exceeded_on_fresh", "call_fault_fired", "failed_in_closure", "cumulative_allocation_over_budget", "ops_fed_previous_result"}
 }
 func (c07Engine) Decode(raw []byte) (interface{}, error) {
 	var sc VMScenario
@@ -407,6 +499,8 @@ func runVMHistory(sc *VMScenario, ctx *RunCtx, prop string) *Finding {
 	used := make([]int, sc.VMs)
 	cumAlloc := make([]int, sc.VMs)
 	hist := make([]string, sc.VMs)
+	lastOut := make([]interface{}, sc.VMs)  // live result object of the last successful run
+	lastCopy := make([]interface{}, sc.VMs) // its deep copy, taken when it was returned
 	for i := range machines {
 		machines[i] = &vm.VM{}
 	}
@@ -429,6 +523,12 @@ func runVMHistory(sc *VMScenario, ctx *RunCtx, prop string) *Finding {
 		var envBefore string
 		w := NewWorld(sc.Stateful, op.Faults, nil)
 		envv := BuildEnv(w, sc.Envs[op.Env]).AsRep(sc.Rep)
+		feed := op.Feed && lastOut[op.VM] != nil
+		var freshEnv interface{}
+		if feed {
+			ctx.Count("ops_fed_previous_result", 1)
+			envv = withAny(BuildEnv(w, sc.Envs[op.Env]), sc.Rep, lastOut[op.VM])
+		}
 		if prop == "C09" {
 			envBefore = Snapshot(envv)
 		}
@@ -437,7 +537,22 @@ func runVMHistory(sc *VMScenario, ctx *RunCtx, prop string) *Finding {
 		got := sutRun(machines[op.VM], cp.prog, envv)
 		gotJ := w.Journal
 		fired := len(w.Fired)
-		want, wantJ, _ := oneRun(sc, nil, cp, op, crash)
+		var want Outcome
+		var wantJ []CallRec
+		if feed {
+			wf := NewWorld(sc.Stateful, op.Faults, nil)
+			freshEnv = withAny(BuildEnv(wf, sc.Envs[op.Env]), sc.Rep, deepCopy(lastCopy[op.VM]))
+			vm.MemoryBudget = op.Budget
+			beginRun(crash, 0)
+			want = sutRun(nil, cp.prog, freshEnv)
+			wantJ = wf.Journal
+		} else {
+			want, wantJ, _ = oneRun(sc, nil, cp, op, crash)
+		}
+		if got.Err == nil && !got.Panicked {
+			lastOut[op.VM] = got.Out
+			lastCopy[op.VM] = deepCopy(got.Out)
+		}
 		ctx.Eval()
 		ctx.Logf("op %d %s vm=%d prog=%d env=%d budget=%d crash=%d faults=%v: reused %s | fresh %s", opi, label, op.VM, op.Prog, op.Env, op.Budget, crash, op.Faults, firstLine(got.Key()), firstLine(want.Key()))
 		if used[op.VM] > 0 {
@@ -514,6 +629,9 @@ func runVMHistory(sc *VMScenario, ctx *RunCtx, prop string) *Finding {
 			}
 		}
 		if prop == "C09" {
+			if got.Key() != want.Key() {
+				return &Finding{Class: "C09/run-on-equal-environment-differs", Detail: fmt.Sprintf("op %d (%s): the same program on equal environments returned different results (VM with a history vs fresh VM)\n with history: %s\n fresh:        %s\nprogram: %s", opi, label, got.Key(), want.Key(), cp.src)}
+			}
 			if after := Snapshot(envv); after != envBefore {
 				return &Finding{Class: "C09/environment-modified", Detail: fmt.Sprintf("op %d: running the program changed the environment value\nprogram: %s\n before: %s\n after:  %s", opi, cp.src, envBefore, after)}
 			}
@@ -527,7 +645,10 @@ func runVMHistory(sc *VMScenario, ctx *RunCtx, prop string) *Finding {
 			}
 			ctx.Count("snapshots_compared", 1+len(progs))
 			// same run on an equal environment (fresh VM, fresh equal world)
-			again, againJ, _ := oneRun(sc, nil, cp, op, crash)
+			again, againJ := want, wantJ
+			if !feed {
+				again, againJ, _ = oneRun(sc, nil, cp, op, crash)
+			}
 			ctx.Eval()
 			if again.Key() != want.Key() || journalDiff(againJ, wantJ) != "" {
 				return &Finding{Class: "C09/rerun-differs", Detail: fmt.Sprintf("op %d: two runs of the same program on equal environments differ\n first:  %s\n second: %s\nprogram: %s", opi, want.Key(), again.Key(), cp.src)}
@@ -633,6 +754,9 @@ func vmShrinks(sc *VMScenario) []interface{} {
 		}
 		if op.VM != 0 {
 			add(func(c *VMScenario) { c.Ops[i].VM = 0 })
+		}
+		if op.Feed {
+			add(func(c *VMScenario) { c.Ops[i].Feed = false })
 		}
 		if op.Env != 0 {
 			add(func(c *VMScenario) { c.Ops[i].Env = 0 })
